@@ -4,8 +4,10 @@ import (
 	"errors"
 	"fmt"
 	"sort"
+	"sync/atomic"
 	"time"
 
+	"github.com/cenkalti/backoff/v4"
 	"google.golang.org/protobuf/types/known/anypb"
 
 	"github.com/kitex-contrib/xds/core/xdsresource"
@@ -262,7 +264,7 @@ func genHistory(c *ctx, prof histProfile, ndsRequired bool) {
 			if r.chance(prof.pBad) {
 				pos := r.intn(len(slots) + 1)
 				slots = append(slots[:pos], append([][3]string{{"bad", "", ""}}, slots[pos:]...)...)
-				anys = append(anys[:pos], append([]*anypb.Any{badAny(rt, r.intn(2))}, anys[pos:]...)...)
+				anys = append(anys[:pos], append([]*anypb.Any{badAny(rt, r.intn(3))}, anys[pos:]...)...)
 				c.count("push=bad", 1)
 			}
 			v, nonce := fmt.Sprintf("v%d", version), fmt.Sprintf("n%d", version)
@@ -340,8 +342,183 @@ func stopFlood(c *ctx, misses int) {
 		"pre": pre, "obs0": obs0, "steps": h.steps})
 }
 
+// stalledBurst: the connection stalls (Send blocks) while more lookups miss than the request channel holds; the
+// lookups queue up behind the full channel; when the connection resumes every change must still reach the control
+// plane: at quiescence the last request of the type lists the whole interest set (C03).
+func stalledBurst(c *ctx, n int) {
+	w, err := newWorld(worldOpts{ndsNotRequired: true, fetchTimeout: time.Millisecond})
+	if err != nil {
+		fmt.Println("hist: world:", err)
+		return
+	}
+	defer w.close()
+	h := &histRun{c: c, w: w}
+	pre := []interface{}{obj{"o": "startup-lds", "stamp": inboundStamp}}
+	obs0 := h.observe(0)
+	names := make([]string, n)
+	for i := range names {
+		names[i] = fmt.Sprintf("b%04d", i)
+	}
+	gate := make(chan struct{})
+	w.ads.mu.Lock()
+	w.ads.streams[len(w.ads.streams)-1].sendGate = gate
+	w.ads.mu.Unlock()
+	h.step(obj{"o": "burst", "rt": "cds", "names": names}, func() {
+		done := make(chan struct{})
+		var returned int64
+		go func() {
+			for _, nm := range names {
+				_ = w.get(rtOf("cds"), nm)
+				atomic.AddInt64(&returned, 1)
+			}
+			close(done)
+		}()
+		// wait until the lookups are all through, or stuck behind the full request channel
+		last, stable := int64(-1), 0
+		for stable < 40 {
+			select {
+			case <-done:
+				stable = 1 << 30
+			case <-time.After(5 * time.Millisecond):
+				if r := atomic.LoadInt64(&returned); r == last {
+					stable++
+				} else {
+					last, stable = r, 0
+				}
+			}
+		}
+		w.ads.mu.Lock()
+		for _, s := range w.ads.streams {
+			s.sendGate = nil
+		}
+		w.ads.mu.Unlock()
+		close(gate)
+		select {
+		case <-done:
+		case <-time.After(30 * time.Second):
+			w.hung = true
+		}
+	})
+	uni := obj{"lds": []string{xdsresource.ReservedLdsResourceName}, "rds": []string{}, "cds": []string{}, "eds": []string{}}
+	c.count("stalled-burst", 1)
+	c.emit(obj{"op": "hist", "cfg": obj{"nds": false, "ns": "default", "dom": "cluster.local"}, "universe": uni,
+		"pre": pre, "obs0": obs0, "steps": h.steps})
+}
+
+// stalledReconnect: a stream failure racing lookups (C04). The connection stalls with one request in flight, the
+// stream fails, the receiver reconnects (drain + publish) while the sender is still stuck in Send on the dead stream,
+// k more lookups miss (their Watch enqueues requests after the drain), then the stalled Send returns. Whatever the
+// sender picks first (the new stream or the queued requests), nothing it puts on the new stream may carry a nonce of
+// the old one, and the re-subscription must list every name.
+func stalledReconnect(c *ctx, k int) {
+	w, err := newWorld(worldOpts{ndsNotRequired: true, fetchTimeout: time.Millisecond})
+	if err != nil {
+		fmt.Println("hist: world:", err)
+		return
+	}
+	defer w.close()
+	h := &histRun{c: c, w: w}
+	pre := []interface{}{obj{"o": "startup-lds", "stamp": inboundStamp}}
+	obs0 := h.observe(0)
+	var res string
+	h.step(obj{"o": "get", "rt": "cds", "n": "c1"}, func() { res = w.get(rtOf("cds"), "c1") })
+	h.steps[len(h.steps)-1].(obj)["obs"].(obj)["get"] = res
+	h.step(obj{"o": "push", "rt": "cds", "v": "v1", "nonce": "n1", "slots": slotsJSON([][3]string{{"good", "c1", "c1#1"}})}, func() {
+		w.feed(mkResp(urlOf("cds"), "v1", "n1", []*anypb.Any{anyStamped("cds", "c1", "c1#1")}))
+	})
+	names := make([]string, k)
+	for i := range names {
+		names[i] = fmt.Sprintf("s%d", i+1)
+	}
+	gate := make(chan struct{})
+	w.ads.mu.Lock()
+	w.ads.streams[len(w.ads.streams)-1].sendGate = gate
+	w.ads.mu.Unlock()
+	h.step(obj{"o": "stalled-reconnect", "rt": "cds", "first": "s0", "names": names}, func() {
+		_ = w.get(rtOf("cds"), "s0") // its request is taken by the sender, which blocks in Send
+		w.waitFor(func() bool { return w.m.VerifQueueLen() == 0 }, 5*time.Second)
+		w.feedErr(errors.New("verif: stream reset"))
+		// the receiver closes the stream, connects again, drains, publishes, and waits in Recv on the new stream
+		w.waitFor(func() bool {
+			w.ads.mu.Lock()
+			defer w.ads.mu.Unlock()
+			return len(w.ads.streams) == 2 && w.ads.streams[1].waiting
+		}, 10*time.Second)
+		for _, n := range names {
+			_ = w.get(rtOf("cds"), n)
+		}
+		w.ads.mu.Lock()
+		for _, s := range w.ads.streams {
+			s.sendGate = nil
+		}
+		w.ads.mu.Unlock()
+		close(gate)
+	})
+	uni := obj{"lds": []string{xdsresource.ReservedLdsResourceName}, "rds": []string{}, "cds": []string{"c1"}, "eds": []string{}}
+	c.count("stalled-reconnect", 1)
+	c.emit(obj{"op": "hist", "cfg": obj{"nds": false, "ns": "default", "dom": "cluster.local"}, "universe": uni,
+		"pre": pre, "obs0": obs0, "steps": h.steps})
+}
+
+// outage: the stream fails and stream creation keeps failing for more than one whole reconnect budget (the back-off
+// policy is replaced by a 3-attempt constant one through a verif hook); cached resources stay served meanwhile; when
+// the control plane is reachable again the client must open a new stream and re-subscribe (C04).
+func outage(c *ctx, budgets int) {
+	w, err := newWorld(worldOpts{ndsNotRequired: true, fetchTimeout: time.Millisecond})
+	if err != nil {
+		fmt.Println("hist: world:", err)
+		return
+	}
+	defer w.close()
+	w.m.VerifSetConnectBackoff(backoff.WithMaxRetries(backoff.NewConstantBackOff(time.Millisecond), 2))
+	h := &histRun{c: c, w: w}
+	pre := []interface{}{obj{"o": "startup-lds", "stamp": inboundStamp}}
+	obs0 := h.observe(0)
+	var res string
+	h.step(obj{"o": "get", "rt": "eds", "n": "e1"}, func() { res = w.get(rtOf("eds"), "e1") })
+	h.steps[len(h.steps)-1].(obj)["obs"].(obj)["get"] = res
+	h.step(obj{"o": "push", "rt": "eds", "v": "v1", "nonce": "n1", "slots": slotsJSON([][3]string{{"good", "e1", "e1#1"}})}, func() {
+		w.feed(mkResp(urlOf("eds"), "v1", "n1", []*anypb.Any{anyStamped("eds", "e1", "e1#1")}))
+	})
+	served := ""
+	hang := false
+	h.step(obj{"o": "outage", "budgets": budgets}, func() {
+		w.ads.mu.Lock()
+		w.ads.failCreate = 1 << 30
+		base := w.ads.createAttempts
+		w.ads.mu.Unlock()
+		w.feedErr(errors.New("verif: stream reset"))
+		// 3 attempts per budget
+		w.waitFor(func() bool {
+			w.ads.mu.Lock()
+			defer w.ads.mu.Unlock()
+			return w.ads.createAttempts-base >= 3*budgets
+		}, 10*time.Second)
+		served = w.get(rtOf("eds"), "e1")
+		w.ads.mu.Lock()
+		w.ads.failCreate = 0
+		w.ads.mu.Unlock()
+		if !w.waitFor(func() bool {
+			w.ads.mu.Lock()
+			defer w.ads.mu.Unlock()
+			return len(w.ads.streams) >= 2
+		}, 5*time.Second) {
+			hang = true
+		}
+	})
+	last := h.steps[len(h.steps)-1].(obj)
+	if ob, ok := last["obs"].(obj); ok {
+		ob["servedDuring"] = served
+		ob["noNewStream"] = hang
+	}
+	uni := obj{"lds": []string{xdsresource.ReservedLdsResourceName}, "rds": []string{}, "cds": []string{}, "eds": []string{"e1"}}
+	c.count("outage", 1)
+	c.emit(obj{"op": "hist", "cfg": obj{"nds": false, "ns": "default", "dom": "cluster.local"}, "universe": uni,
+		"pre": pre, "obs0": obs0, "steps": h.steps})
+}
+
 func runHistories(c *ctx, prof histProfile, n int) {
-	for i := 0; i < n; i++ {
+	for i := 0; i < n && !c.expired(); i++ {
 		genHistory(c, prof, i%3 != 2)
 	}
 }
@@ -354,10 +531,16 @@ func init() {
 		runHistories(c, histProfile{steps: 40, pFault: 2, pBad: 40, pUnsolicited: 15, pGet: 30}, 60*c.budget)
 	}
 	props["C03"] = func(c *ctx) {
+		stalledBurst(c, 1040)
 		runHistories(c, histProfile{steps: 50, pFault: 6, pBad: 10, pUnsolicited: 10, pGet: 60}, 50*c.budget)
 	}
 	props["C04"] = func(c *ctx) {
 		stopFlood(c, 1030)
+		for i := 0; i < 6*c.budget && !c.expired(); i++ {
+			stalledReconnect(c, 3+c.rng.intn(5))
+		}
+		outage(c, 1)
+		outage(c, 3)
 		runHistories(c, histProfile{steps: 30, pFault: 22, pBad: 15, pUnsolicited: 10, pGet: 35, authStop: true, createFail: c.thorough(), sendFail: true}, 50*c.budget)
 	}
 }
